@@ -216,8 +216,13 @@ def check_oem(case, ctx):
             if not ok:
                 continue
             KtSiK = K.T @ np.linalg.solve(Sy_e, K)
-            bound = (1.0 / np.linalg.eigvalsh((KtSiK + KtSiK.T) / 2).min()
-                     / np.linalg.eigvalsh(Sa).min())
+            evk = np.linalg.eigvalsh((KtSiK + KtSiK.T) / 2)
+            if evk.min() <= 1e-9 * evk.max():
+                # K^T S_y^-1 K numerically singular: its inverse (the bound)
+                # cannot be computed to the accuracy of the comparison
+                ctx.label("limit-noise-K-nearly-rank-deficient(skipped)")
+                continue
+            bound = 1.0 / evk.min() / np.linalg.eigvalsh(Sa).min()
             dist = np.linalg.norm(eye - A, 2)
             ctx.check(dist <= bound * (1 + 1e-6) + 1e-9,
                       "limit/noise-A-not-identity", lambda: (
